@@ -395,3 +395,66 @@ theorem hasRelationship_total (rows : List RowX) (fuel : Nat) (hf : fuelFor (mak
       | depth => exact absurd hr (relLoop_ok_or_diverge _ _ _ _ _ _ _).2.2
 
 end Hs.NsA
+
+namespace Hs.NsA
+open Hs Hs.Ns
+
+/-! ### `has_relationship` without a target ref
+
+`rel?` / `rel? ^term` on a record that carries an `id`: no Ref is followed and the reciprocal branch is never
+taken (it needs `ref_target == id`), so the answer is a plain scan: some tag's def declares the relationship with a
+Symbol that fits the term. -/
+
+theorem relInner_no_target (recs : List FLoops.Rec) (tr hr : Bool) (id : Option FLoops.RefId) (hid : id ≠ none) :
+    ∀ (es : List FLoops.Entry) (q : List FLoops.RefId),
+      FLoops.relInner recs tr hr id es q none =
+        if es.any (fun e => e.rel == FLoops.DefVal.sym true) then FLoops.Step.ret true else FLoops.Step.done := by
+  intro es
+  induction es with
+  | nil => intro q; rfl
+  | cons e rest ih =>
+    intro q
+    have hne : ((none : Option FLoops.RefId) == id) = false := by
+      cases id with
+      | none => exact absurd rfl hid
+      | some _ => rfl
+    simp only [FLoops.relInner, hne, Bool.and_false, Bool.false_and, Bool.false_eq_true, if_false, List.any_cons]
+    split
+    · rename_i f hf
+      cases f with
+      | true => simp [hf]
+      | false => simp [hf, ih q]
+    · rename_i hns
+      have hb : (e.rel == FLoops.DefVal.sym true) = false := by
+        cases h : e.rel with
+        | absent => rfl
+        | other => rfl
+        | sym f => exact absurd h (hns f)
+      simp [hb, ih q]
+
+/-- `has_relationship(subject, rel, term, None, _)` for a subject with an `id`: true iff `rel` is a def that
+inherits from `relationship` and some tag of the subject has a def whose `rel` tag is a Symbol fitting the term -/
+theorem hasRelationship_no_target (fuel lf : Nat) (x : NsX) (recs : List RecX) (rel : Name) (term : Option Name)
+    (s : RecX) (hid : s.id ≠ none) (rd : DefX) (hg : getX x.xd rel = some rd) (inh : List Name)
+    (hi : inheritance fuel x.ns rel = .ok inh) :
+    hasRelationship fuel (lf + 1) x recs rel term none s =
+      .ok (inh.contains nRelationship && s.tags.any (fun t => defVal fuel x term t.key rel == FLoops.DefVal.sym true)) := by
+  unfold hasRelationship
+  rw [hg]
+  simp only [hi]
+  unfold FLoops.hasRelationship
+  by_cases hc : inh.contains nRelationship = true
+  · simp only [hc, Bool.not_true, Bool.false_eq_true, if_false, Bool.true_and]
+    have hview : (viewRec fuel x term rel (rd.getSymbol nReciprocalOf) s).id = s.id := rfl
+    simp only [FLoops.relLoop, hview]
+    rw [relInner_no_target _ _ _ s.id hid]
+    have hany : (viewRec fuel x term rel (rd.getSymbol nReciprocalOf) s).entries.any (fun e => e.rel == FLoops.DefVal.sym true)
+        = s.tags.any (fun t => defVal fuel x term t.key rel == FLoops.DefVal.sym true) := by
+      simp only [viewRec, List.any_map]
+      rfl
+    rw [hany]
+    cases s.tags.any (fun t => defVal fuel x term t.key rel == FLoops.DefVal.sym true) <;> rfl
+  · have hc' : inh.contains nRelationship = false := by simpa using hc
+    simp only [hc', Bool.not_false, if_true, Bool.false_and]
+
+end Hs.NsA
